@@ -134,6 +134,15 @@ impl<'a> Rd<'a> {
 }
 
 /// the key a block reference written in a note of directory `dir` points to (independent of iwe: crate relative-path only)
+/// the directory of a note key (everything before the last `/`; a trailing `.md` of the file name does not matter),
+/// computed on the string, independently of the implementation's `Key::parent`
+pub fn dir_of(key: &str) -> String {
+    match key.rsplit_once('/') {
+        Some((dir, _)) => dir.trim_matches('/').to_string(),
+        None => String::new(),
+    }
+}
+
 /// the relative url for the note `target` (a key) written from a note in directory `dir`, computed
 /// component-wise and independently of the implementation's `Key::to_rel_link_url` (generators use this
 /// one, so that a defect there cannot hide itself in the generated inputs)
